@@ -426,6 +426,9 @@ func readHeader(scanner *bufio.Scanner) ([]ast.PredicateSym, []int, error) {
 		if arity < 0 || arity > maxArity {
 			return nil, nil, fmt.Errorf("for predicate %v: %w", name, ErrUnsupportedArity)
 		}
+		if numFacts < 0 {
+			return nil, nil, fmt.Errorf("for predicate %v: invalid number of facts %d: %w", name, numFacts, ErrWrongArgument)
+		}
 		if numFacts > maxFactsPerPredicate {
 			return nil, nil, fmt.Errorf("for predicate %v: %w", name, ErrTooManyFacts)
 		}
